@@ -85,6 +85,19 @@ fn parse(format: &str, seed: u64, b: &[u8], companion: Option<&[u8]>) -> bool {
     }
 }
 
+/// The first `src/....rs` path named in a signature or message.
+fn source_file_of(text: &str) -> Option<String> {
+    let start = text.find("src/")?;
+    let rest = &text[start..];
+    let end = rest.find(".rs")? + 3;
+    let f = &rest[..end];
+    if f.chars().all(|c| c.is_ascii_alphanumeric() || c == '/' || c == '_' || c == '.') {
+        Some(f.to_string())
+    } else {
+        None
+    }
+}
+
 pub fn entry_name(format: &str) -> String {
     match format {
         "exd" => "EXD::from_existing+read_row".to_string(),
@@ -107,13 +120,19 @@ pub fn run_asset(h: &mut Harness, format: &str, seed: u64, damage: &[Damage]) {
     let n = bytes.len() as u64 + companion.as_ref().map(|c| c.len() as u64).unwrap_or(0);
     let entry = format!("asset:{}", format);
     let r = h.op(0, &entry, n, || parse(format, seed, &bytes, companion.as_deref())).done();
-    // Asset-buffer violations are classified per format and kind, not per call site: the asset
-    // parsers share a few failure patterns over a very large number of sites, and a stable,
-    // complete classification matters more here than a fine one (DESIGN §5).
+    // Asset-buffer violations are classified per format, kind and source file of the failing
+    // call site, not per line: the asset parsers share a few failure patterns over a very large
+    // number of sites, and a stable, complete classification matters more here than a finer one
+    // (DESIGN §5). The file keeps a recorded finding in one module from hiding a new one in
+    // another.
     if let Some(v) = h.violation.as_mut() {
         let kind = v.sig.split('|').nth(1).unwrap_or("panic").to_string();
+        let file = source_file_of(&v.sig).or_else(|| source_file_of(&v.msg));
         v.msg = format!("{} [{}; original signature {}]", v.msg, entry_name(format), v.sig);
-        v.sig = format!("C18|asset|{}|{}", format, kind);
+        v.sig = match file {
+            Some(f) => format!("C18|asset|{}|{}|{}", format, kind, f),
+            None => format!("C18|asset|{}|{}", format, kind),
+        };
     }
     h.log(&format!("{} -> {:?}", entry, r));
     let fi = FORMATS.iter().position(|f| *f == format).unwrap_or(0) as u64;
